@@ -217,7 +217,10 @@ class IMAPConnection:
                     raise AuthenticationError('Authentication canceled.') \
                         from None
                 try:
-                    resp_dec = b64decode(resp_bytes)
+                    # strict: characters outside the alphabet are an error,
+                    # not something to skip over
+                    resp_dec = b64decode(resp_bytes.rstrip(b'\r\n'),
+                                         validate=True)
                 except binascii.Error as exc:
                     raise AuthenticationError() from exc
                 else:
